@@ -24,6 +24,22 @@ type Parser struct {
 
 	// operandStack holds the operands seen since the last operator
 	operandStack []core.Object
+
+	// depth counts the arrays and dictionaries currently open
+	depth int
+}
+
+// maxNestingDepth bounds how deep arrays and dictionaries may nest; without a
+// bound a stream of a few megabytes of "[" exhausts the goroutine stack.
+const maxNestingDepth = 500
+
+// enter records one more open array or dictionary.
+func (p *Parser) enter() error {
+	if p.depth >= maxNestingDepth {
+		return fmt.Errorf("arrays and dictionaries nested more than %d deep", maxNestingDepth)
+	}
+	p.depth++
+	return nil
 }
 
 // NewParser creates a new content stream parser for the given data.
@@ -445,6 +461,10 @@ func (p *Parser) parseArray() (core.Object, error) {
 	if p.data[p.pos] != '[' {
 		return nil, fmt.Errorf("array must start with '['")
 	}
+	if err := p.enter(); err != nil {
+		return nil, err
+	}
+	defer func() { p.depth-- }()
 	p.pos++ // skip '['
 
 	var arr core.Array
@@ -477,6 +497,10 @@ func (p *Parser) parseDict() (core.Object, error) {
 	if p.pos+1 >= len(p.data) || p.data[p.pos] != '<' || p.data[p.pos+1] != '<' {
 		return nil, fmt.Errorf("dictionary must start with '<<'")
 	}
+	if err := p.enter(); err != nil {
+		return nil, err
+	}
+	defer func() { p.depth-- }()
 	p.pos += 2 // skip '<<'
 
 	dict := make(core.Dict)
